@@ -561,10 +561,8 @@ impl Engine {
             }
             Op::Mkdir { ds, name, .. } => {
                 let hd = self.m.hdirs[*ds].clone().unwrap();
+                // (making a directory opens nothing: a full directory table is no reason to refuse)
                 let mut r = Vec::new();
-                if nd >= self.m.limits.0 {
-                    r.push(Ek::TooManyOpenDirs);
-                }
                 let mut key = None;
                 match key_of(name) {
                     Err(true) => r.push(Ek::FilenameError),
@@ -756,14 +754,10 @@ impl Engine {
                 self.check("C08", "C08.stale", &format!("file handle action {}", act % 11), res, &exp);
             }
             Op::StaleDir { act, .. } => {
-                let mut errs = vec![Ek::BadHandle];
+                // a closed handle is a bad handle, whatever else is true of the tables at that moment
+                let errs = vec![Ek::BadHandle];
                 let a = act % 14;
-                if (a == 0 || a == 7 || a == 8 || a == 9 || a == 13) && nd >= self.m.limits.0 {
-                    errs.push(Ek::TooManyOpenDirs);
-                }
-                if (a == 5 || a == 11) && nf >= self.m.limits.1 {
-                    errs.push(Ek::TooManyOpenFiles);
-                }
+                let _ = (nd, nf);
                 self.check("C08", "C08.stale", &format!("directory handle action {}", a), res, &Expect { ok: false, errs });
             }
             Op::StaleVol { act, .. } => {
